@@ -369,6 +369,13 @@ def _check_show(ctx, mod, node_model, viol):
     ctx.oblige("R-C14.3", "Node.show writes one newline per node", ok)
     if not ok:
         viol("R-C14.3", "Node", "show-newline", "show must write exactly one newline, unconditionally, per node (one line per reachable node)", fn)
+    # no way out of show() before its line is written and its children are shown
+    exits = [n for n in ast.walk(fn) if isinstance(n, (ast.Return, ast.Raise)) and S.enclosing_function(n) is fn]
+    ok = not exits
+    ctx.oblige("R-C14.3", "Node.show has no early exit", ok)
+    if not ok:
+        viol("R-C14.3", "Node", "show-early-exit", f"show leaves early (`{S.unparse(exits[0])}` under `{S.unparse(getattr(exits[0], '_parent', exits[0]))[:60]}`): a node for which that happens - and everything below it - "
+             "prints no line, so the listing no longer has one line per reachable node", exits[0])
     loops = [s for s in top if isinstance(s, ast.For)]
     ok = len(loops) == 1
     if ok:
